@@ -56,7 +56,7 @@ T = {
  'C19': ('proof', 'polynomial normal forms modulo integration by parts; mirror parity; Rat identities; call binding; abstract interpretation of make_skew_symmetric over an elementwise segment domain (vcheck/coosem.py)',
          'fkAx/fkAy/fcA proved equal to the piston-theory forms; parity of each term vs the mirror applied (known finding F-C19-1); Mach formulas as identities; call binding and coefficient forwarding (known findings F-C19-2/3).',
          'C10; precondition w restrained on flow edges', '3/C19'),
- 'C20': ('other', 'typestate derive-before-read over CFG + call graph; effect analysis on caller inputs; dominance of accumulator resets; prange disjointness; path analysis of ConeCyl._rebuild (derived radius refreshed on every rebuild, R20.8)',
+ 'C20': ('other', 'typestate derive-before-read over CFG + call graph; effect analysis on caller inputs; dominance of accumulator resets; prange disjointness; path analysis of ConeCyl._rebuild (derived radius refreshed on every rebuild, R20.8); package-wide inventory of self-guarded attribute stores against a confirmed table (no compute-once cache of derived state, R20.9)',
          'derive-before-read of lazily derived attributes for every public entry point; caller inputs not mutated; idempotent in-place scalings; attribute accumulators reset in the same call; thread-independence structure.',
          'bit-identical floating point sums across thread counts NOT decided', '3/C20'),
 }
